@@ -426,11 +426,21 @@ class Spectrum:
         else:
             spectrum = self
 
-        interp = scipy.interpolate.interp1d(spectrum.wave, spectrum.value, kind=method,
-                                            copy=False, bounds_error=False,
-                                            fill_value=fill_value)
+        # interpolate in double precision whatever the storage type of the samples
+        # (scipy interpolates narrow types in their own precision, and a spectrum
+        # of one sample as 0/0 unless both arrays are float64)
+        x = np.asarray(spectrum.wave, dtype=np.float64)
+        y = np.asarray(spectrum.value)
+        y = y.astype(np.result_type(y.dtype, np.float64))
 
-        return interp(wave)
+        def interp(values):
+            return scipy.interpolate.interp1d(x, values, kind=method, copy=False,
+                                              bounds_error=False,
+                                              fill_value=fill_value)(wave)
+
+        if np.iscomplexobj(y):
+            return interp(y.real) + 1j*interp(y.imag)
+        return interp(y)
 
     def resample(self, wave, method='linear', fill_value=0, waveunit='nm'):
         """Sample the :class:`Spectrum` object at a set of desired wavelengths
@@ -784,6 +794,12 @@ class Spectrum:
 
         """
         for unit in args:
+
+            # the arithmetic of a conversion is done in double precision, not in
+            # the type the wavelength grid happens to be stored in (single
+            # precision, integers)
+            if self.wave.dtype.kind in 'fiub' and self.wave.dtype != np.float64:
+                self.wave = self.wave.astype(np.float64)
 
             if unit.lower() in ['m', 'meter', 'um', 'micron', 'nm', 'nanometer', 'angstrom']:
                 if self.valueunit in ['photlam', 'flam', 'wlam']:
